@@ -81,3 +81,92 @@ Print Assumptions C09_bound_on_selected.
 Theorem C09_no_internal_failure : forall k sh fs, expand k sh fs <> Panic.
 Proof. exact Proofs.no_panic. Qed.
 Print Assumptions C09_no_internal_failure.
+
+(* ------------------------------------------------------------------ growth round: uniqueness, rejection,
+   backtrace / provide(), outcome inertness, bound inference *)
+
+(* the derive is rejected EXACTLY on a documented ambiguity (of the source or of the backtrace) ... *)
+Theorem C09_rejected_iff : forall k sh fs,
+  expand k sh fs = Err <->
+  documented_source sh fs = Ambiguous \/ documented_backtrace sh fs = Ambiguous.
+Proof. exact Proofs.rejected_iff. Qed.
+Print Assumptions C09_rejected_iff.
+
+(* ... and accepted on every other layout *)
+Theorem C09_accepted_iff : forall k sh fs,
+  (exists x, expand k sh fs = Ok x) <->
+  documented_source sh fs <> Ambiguous /\ documented_backtrace sh fs <> Ambiguous.
+Proof. exact Proofs.accepted_iff. Qed.
+Print Assumptions C09_accepted_iff.
+
+(* uniqueness: an accepted layout has at most one non-ignored field marked `#[error(source)]` *)
+Theorem C09_marked_source_unique : forall k sh fs x,
+  expand k sh fs = Ok x ->
+  length (filter (fun f => negb (f_ignore f) && marked_source f) fs) <= 1.
+Proof. exact Proofs.marked_source_unique. Qed.
+Print Assumptions C09_marked_source_unique.
+
+(* the backtrace field is the documented one *)
+Theorem C09_backtrace_selection : forall k sh fs x,
+  expand k sh fs = Ok x ->
+  Sel (option_map (to_all fs) (x_bsel x)) = documented_backtrace sh fs.
+Proof. exact Proofs.backtrace_selection. Qed.
+Print Assumptions C09_backtrace_selection.
+
+(* provide(): the documented backtrace by reference unless it is the source, whose provide() is forwarded *)
+Theorem C09_provide_selection : forall k sh fs x,
+  expand k sh fs = Ok x -> Sel (provided x) = documented_provide sh fs.
+Proof. exact Proofs.provide_selection. Qed.
+Print Assumptions C09_provide_selection.
+
+Theorem C09_enum_provide_match_exhaustive : forall vs f,
+  render_enum_provide vs = Ok f -> provide_match_exhaustive f (length vs) = true.
+Proof. exact Proofs.enum_provide_exhaustive. Qed.
+Print Assumptions C09_enum_provide_match_exhaustive.
+
+Theorem C09_enum_provide_variant : forall vs f k v,
+  render_enum_provide vs = Ok f -> nth_error vs k = Some v ->
+  (v_ignore v = true -> enum_provide_fn_returns f k = (None, None)) /\
+  (v_ignore v = false ->
+   Sel (enum_provide_fn_returns f k) = documented_provide (v_shape v) (v_fields v)).
+Proof. exact Proofs.enum_provide_documented. Qed.
+Print Assumptions C09_enum_provide_variant.
+
+(* `ignore`d fields change neither the documented backtrace nor whether the derive is accepted *)
+Theorem C09_ignore_inert_backtrace : forall sh fs k f,
+  f_ignore f = true -> k <= length fs ->
+  documented_backtrace sh (insert_at k f fs) = doc_map (shift k) (documented_backtrace sh fs).
+Proof. exact Proofs.ignore_inert_backtrace. Qed.
+Print Assumptions C09_ignore_inert_backtrace.
+
+Theorem C09_ignore_inert_outcome : forall kd sh fs k f,
+  f_ignore f = true -> k <= length fs ->
+  ((exists x, expand kd sh fs = Ok x) <-> (exists x', expand kd sh (insert_at k f fs) = Ok x'))
+  /\ (expand kd sh fs = Err <-> expand kd sh (insert_at k f fs) = Err).
+Proof. exact Proofs.ignore_inert_outcome. Qed.
+Print Assumptions C09_ignore_inert_outcome.
+
+(* which types get bounded: the walk of utils.rs finds a type parameter iff one of the identifiers it
+   looks at (first segment of a path type, name of a constraint, through every position it descends
+   into) is a type parameter *)
+Theorem C09_type_parameter_used_iff : forall ps t,
+  used_ty ps t = true <-> exists i, In i ps /\ In i (idents_ty t).
+Proof. exact Proofs.used_ty_iff. Qed.
+Print Assumptions C09_type_parameter_used_iff.
+
+(* concrete fields: the `Error + 'static` bound is on the (reference-stripped) type of the returned
+   field, exactly when that type mentions a type parameter; never elsewhere; none without a source *)
+Theorem C09_bound_inference : forall ps k sh cs x j c,
+  expand k sh (map (abstract_field ps) cs) = Ok x ->
+  returned_field x = Some j -> nth_error cs j = Some c ->
+  (x_bound x = Some j <-> exists i, In i ps /\ In i (idents_ty (c_ty c)))
+  /\ (x_bound x = Some j \/ x_bound x = None)
+  /\ (x_bound x = Some j ->
+      get_if_type_parameter_used_in_type ps (c_ty c) = Some (strip_reference (c_ty c))).
+Proof. exact Proofs.bound_inference. Qed.
+Print Assumptions C09_bound_inference.
+
+Theorem C09_bound_only_with_source : forall k sh fs x,
+  expand k sh fs = Ok x -> returned_field x = None -> x_bound x = None.
+Proof. exact Proofs.bound_only_with_source. Qed.
+Print Assumptions C09_bound_only_with_source.
